@@ -280,7 +280,9 @@ package airgapped
 // (a replayed machine has to republish byte-identical results)
 //@ orderfree[C12.order] airgapped dkg
 //@ orderaccept airgapped.Machine).handleStateDkgDealsAwaitConfirmations#0 one private deal per recipient: the set of result messages is the same for every order, only their position in the result file (and the ephemeral ECIES keys drawn for them) varies between runs; recipients handle each deal independently
-//@ orderaccept dkg.DKG).ProcessDeals#0 deals of different dealers are verified independently by kyber; each response carries its own indices, consumers do not use the position in the list
+// (dkg.ProcessDeals is NOT accepted any more: every response is signed with the next nonce of the round's seeded suite, so the
+// order in which the deals are visited decides which response gets which nonce; a replayed round that visits them in another
+// order signs different messages with the same nonces - defect D20. The loop must be order-free.)
 //@ orderaccept dkg.DKG).ProcessResponses#0 responses of different peers are processed independently by kyber
 //@ orderaccept dkg.DKG).Equals#1 comparison helper used by tests only
 //@ orderaccept airgapped.prompt).showFinishedDKGCommand#0 console listing
